@@ -503,6 +503,7 @@ class Run:
                                       and not last.get('inv'))
                             if last.get('out') == 'raised' and last.get('err') == 'RuntimeError' and last.get('inv'):
                                 res['unjudged'] = True       # fenced at the very end of a call that had started
+                                res['kf'] = 'KF-straggler-keeps-effects'       # ... which keeps its effects (C17j)
                     except Exception as x:      # noqa
                         res['unjudged'] = True
                     if fenced:
@@ -586,6 +587,8 @@ class Run:
             self.ev(ev='par_fail', deadlock=sched.deadlock, errors=[repr(x)[:200] for x in errors if x is not None])
         if res.get('unjudged'):
             self.unjudged = True
+        if res.get('kf'):
+            self.unjudged_kf = res['kf']
         self.handoff = None
         self.handoff_frame = None
         return res.get('out') or {'out': 'raised', 'v': {'k': 'none'}, 'err': 'HarnessNoResult', 'same': False}
@@ -921,6 +924,8 @@ class Run:
             out['lock_same'] = sorted(self.lock_same)
         if getattr(self, 'unjudged', False):
             out['unjudged'] = True
+            if getattr(self, 'unjudged_kf', None):
+                out['unjudged_kf'] = self.unjudged_kf
         return out
 
 
